@@ -1169,6 +1169,19 @@ def gen_proto(utils, em_state, st_fns):
 
 
 
+def unguard(block):
+    """`{ if C { return X; } REST }` -> `{ if C { X } else { REST } }` (one level; a guard clause is an if/else)"""
+    inner = block.strip()
+    if not (inner.startswith('{') and inner.endswith('}')):
+        return block
+    body = inner[1:-1].strip()
+    m = re.match(r"if\s+([^{]+)\{\s*return\s+([^;{}]+);\s*\}\s*(.+)$", body, re.S)
+    if not m:
+        return block
+    rest = m.group(3).strip()
+    return "{ if %s { %s } else { %s } }" % (m.group(1).strip(), m.group(2).strip(), rest)
+
+
 def gen_ebrproto(internal, em_epoch, ep_fns):
     """Decisions of Local::{pin, unpin, repin_without_collect, schedule_collection, incr_advance,
     incr_manual_collection, release_handle} and Global::{try_advance, collect}: every if/while condition in textual
@@ -1572,6 +1585,9 @@ def gen(repo):
                     m3 = re.fullmatch(r"Self::from_raw\((.*)\)", rest, re.S)
                     if m3:
                         return api_expr(m3.group(1), cur, emx)
+                    m4 = re.fullmatch(r"Self\s*\{\s*ptr\s*:\s*(.+?)\s*,\s*(?:_marker\s*:\s*PhantomData\s*,?\s*)?\}", rest, re.S)
+                    if m4:
+                        return api_expr(m4.group(1), cur, emx)
                     if ';' in rest or '{' in rest:
                         raise TranslateError("%s: body has a shape the translator does not know: %s" % (hname, " ".join(rest.split())[:120]))
                     return api_expr(rest, cur, emx)
@@ -1587,7 +1603,7 @@ def gen(repo):
                 a += "Definition %s_with_tag (k p tag : Z) : Z := %s.\n" % (hname, api_body(fns['with_tag'][2], emx))
                 a += "Definition %s_ptr_eq (k p q : Z) : bool := %s.\n" % (hname, api_body(fns['ptr_eq'][2], emx))
                 if 'as_ref' in fns:
-                    mm = re.search(r"if\s+([^{]+)\{\s*None\s*\}", fns['as_ref'][2])
+                    mm = re.search(r"if\s+([^{]+)\{\s*(?:return\s+)?None\s*;?\s*\}", fns['as_ref'][2])
                     if not mm:
                         raise TranslateError("%s::as_ref: null test not found" % hname)
                     a += "Definition %s_as_ref_is_none (k p : Z) : bool := %s.\n" % (hname, api_expr(mm.group(1), 'p', emx))
@@ -1629,7 +1645,7 @@ def gen(repo):
             if not mts:
                 raise TranslateError("Tagged::with_timestamp not found in strong.rs")
             j = find_matching(strong_src, mts.end() - 1)
-            body = _strip_macros(strong_src[mts.end() - 1:j + 1])
+            body = unguard(_strip_macros(strong_src[mts.end() - 1:j + 1]))
             emx = cell_emitter()
             v, _ = emx.emit(P(tokenize(body)).parse_block(), {'self': 'Self'}, 'ptr')
             c += "Definition c_with_timestamp (k E self : Z) : Z :=\n  %s.\n\n" % v
